@@ -1,2 +1,2 @@
-import Hive.Model.SerixC03Validators
-def main : IO Unit := Hive.Proto.run ((none, {}) : Option Hive.Serix.Ty × Hive.Serix.PSt) Hive.Serix.VX.stepLine4
+import Hive.Model.SerixC03Objects
+def main : IO Unit := Hive.Proto.run ((none, {}) : Option Hive.Serix.Ty × Hive.Serix.PSt) Hive.Serix.VX.stepLine5
